@@ -15,6 +15,18 @@ theorem no_false_positive (cfg : Cfg) (hc : cfg.interval ≤ cfg.timeout) (p : N
 theorem detects_dead (cfg : Cfg) (k : K) (t : Nat) (hid : k.lastId ≠ 0) (ht : k.lastPong + cfg.timeout < t) :
     (step cfg k (.tick t)).2 = [.recycle] := Keepalive.detects_dead cfg k t hid ht
 
+/-- the rule itself: recycle iff a ping is outstanding and nothing has been heard for more than the timeout — independent of
+the peer's latency -/
+theorem check_fails_iff (cfg : Cfg) (k : K) (t : Nat) :
+    checkFails cfg k t = true ↔ (k.lastId ≠ 0 ∧ k.lastPong + cfg.timeout < t) := Keepalive.check_fails_iff cfg k t
+
+/-- after every recovery the pong clock restarts: no tick within `timeout` of the re-dial recycles the fresh connection,
+however late its first pong arrives -/
+theorem after_recovery_grace (cfg : Cfg) (k : K) (r t : Nat) (ht : t ≤ r + cfg.timeout) (acts : List Ev)
+    (hq : ∀ e ∈ acts, ∃ u, e = .tick u ∧ u ≤ r + cfg.timeout) :
+    Act.recycle ∉ (runK cfg (step cfg k (.recovered r)).1 (acts ++ [.tick t])).2 :=
+  Keepalive.after_recovery_grace cfg k r t ht acts hq
+
 /-- every heartbeat carries a fresh id, which is also the heartbeat id of its body -/
 theorem ping_fresh (cfg : Cfg) (k : K) (t : Nat) (h : checkFails cfg k t = false) :
     (step cfg k (.tick t)).2 = [.ping k.nextId] ∧ (step cfg k (.tick t)).1.nextId = k.nextId + 1 ∧
